@@ -919,6 +919,63 @@ fn execute_inner(ctx: &mut Ctx, lines: &[String]) -> Vec<String> {
                 h.unflushed = false;
                 "ok".into()
             }
+            // flush() while other threads are logging: whatever a thread had logged before it called
+            // flush() is in the files when that call returns (synchronous modes). Markers are logged
+            // and flushed by this thread, round after round, while four other threads keep logging.
+            ["LFLUSHC"] => {
+                ctx.report.count("op.LFLUSHC");
+                if f.lg.is_none() {
+                    let (b, hd) = logger(&dir, &f.spec, &f.cfg, f.mode, &f.errchan);
+                    f.lg = Some((b, vec![hd]));
+                }
+                if let (Some((lg, hs)), false) = (&f.lg, is_async) {
+                    let stop = std::sync::atomic::AtomicBool::new(false);
+                    // the other threads log under a read lock; this thread takes the write lock to look at
+                    // the files: nobody is inside a log call then, and nothing moves
+                    let gate = std::sync::RwLock::new(());
+                    let lgr: &dyn log::Log = &**lg;
+                    let missing: Option<String> = std::thread::scope(|sc| {
+                        for t in 0..4 {
+                            let stop = &stop;
+                            let gate = &gate;
+                            sc.spawn(move || {
+                                // (bounded volume: the directory stays small whatever the rotation limit is)
+                                let mut i = 0u64;
+                                while !stop.load(std::sync::atomic::Ordering::Relaxed) && i < 1500 {
+                                    {
+                                        let _g = gate.read().unwrap();
+                                        lgr.log(&Record::builder().level(log::Level::Info).target("t").args(format_args!("noise-{t}-{i}")).build());
+                                    }
+                                    i += 1;
+                                    if i % 4 == 0 { std::thread::yield_now(); }
+                                }
+                            });
+                        }
+                        let mut missing = None;
+                        for round in 0..60 {
+                            let m = format!("flushc-marker-{li}-{round}");
+                            lgr.log(&Record::builder().level(log::Level::Info).target("t").args(format_args!("{}", m)).build());
+                            hs[0].flush();
+                            let _w = gate.write().unwrap();
+                            let mut all: Vec<u8> = Vec::new();
+                            if let Ok(rd) = std::fs::read_dir(&dir) {
+                                for p in rd.flatten().map(|e| e.path()).filter(|p| p.is_file()) {
+                                    if let Ok(c) = std::fs::read(&p) { all.extend(&c); }
+                                }
+                            }
+                            if !all.windows(m.len()).any(|w| w == m.as_bytes()) { missing = Some(m); break; }
+                        }
+                        stop.store(true, std::sync::atomic::Ordering::Relaxed);
+                        missing
+                    });
+                    if let Some(m) = missing {
+                        ctx.report.fail(&case_id, "flush-returned-early", &format!("line {li}: flush() has returned, but the record {m:?} that this thread had logged before is not in the files (other threads were logging at the same time)"));
+                    }
+                    h.lossy = true;
+                }
+                h.unflushed = false;
+                "ok".into()
+            }
             ["LCLONE"] => {
                 ctx.report.count("op.LCLONE");
                 if f.lg.is_none() {
